@@ -561,7 +561,7 @@ def unregistered_objects(ctx, tmp):
 
 
 def run(ctx):
-    ctx.check_proofs(["MPilot.Props.C13", "MPilot.Props.C13Cli", "MPilot.Props.C13Err", "MPilot.Props.C13Run"])
+    ctx.check_proofs(["MPilot.Props.C13", "MPilot.Props.C13Cli", "MPilot.Props.C13Err", "MPilot.Props.C13Run", "MPilot.Props.C13End"])
     model = common.Model()
     rng = ctx.rng
     tmp = common.tmpdir("mpv_c13_")
